@@ -710,9 +710,75 @@ class Prov:
         return seen
 
 
+def canonicalise_helper_fields(d):
+    """The rules speak of the actor-state struct through four field names (`to_execute`, `executed`, `requesters`, `unavailable_dependencies`).
+    The struct and its fields are recognised by what they are - the struct holding a map kind -> set of actor ids and a map kind -> set of target ids;
+    the two flags by their initial values in the constructor (the run flag starts true, the done flag false) - and renamed to those canonical
+    names in the facts, so that renaming the fields in the source does not lose any anchor. Returns the mapping applied (source name -> canonical)."""
+    RQ = r"HashMap<[\w:]*ExecutionKind, std::collections::HashSet<[\w:]*ActorId>>$"
+    PD = r"HashMap<[\w:]*ExecutionKind, std::collections::HashSet<[\w:]*TargetId>>$"
+    helper = None
+    for a in d["adts"]:
+        if a["enum"] or not a["variants"]:
+            continue
+        tys = [fd["ty"] for fd in a["variants"][0]["fields"]]
+        if any(re.search(RQ, t) for t in tys) and any(re.search(PD, t) for t in tys):
+            helper = a
+            break
+    if helper is None:
+        return {}
+    path = helper["path"]
+    mapping = {}
+    bools = []
+    for fd in helper["variants"][0]["fields"]:
+        if re.search(RQ, fd["ty"]):
+            mapping[fd["name"]] = "requesters"
+        elif re.search(PD, fd["ty"]):
+            mapping[fd["name"]] = "unavailable_dependencies"
+        elif fd["ty"] == "bool":
+            bools.append(fd["name"])
+    if len(bools) == 2:
+        init = {}
+        for bj in d["bodies"]:
+            for blk in bj["blocks"]:
+                for st in blk["stmts"]:
+                    rv = st["rv"]
+                    if rv["k"] == "agg" and rv.get("adt") == path and rv.get("fields"):
+                        for nm, o in zip(rv["fields"], rv["ops"]):
+                            if nm in bools and o["k"] == "const":
+                                init.setdefault(nm, set()).add(o.get("val"))
+        t = [n for n in bools if init.get(n) == {"true"}]
+        fl = [n for n in bools if init.get(n) == {"false"}]
+        if len(t) == 1 and len(fl) == 1:
+            mapping[t[0]] = "to_execute"
+            mapping[fl[0]] = "executed"
+    mapping = {k: v for k, v in mapping.items() if k != v}
+    if not mapping or set(mapping.values()) & ({fd["name"] for fd in helper["variants"][0]["fields"]} - set(mapping)):
+        return {}
+
+    def walk(x):
+        if isinstance(x, dict):
+            if x.get("k") == "field" and x.get("of") == path and x.get("name") in mapping:
+                x["name"] = mapping[x["name"]]
+            if x.get("k") == "agg" and x.get("adt") == path and x.get("fields"):
+                x["fields"] = [mapping.get(n, n) for n in x["fields"]]
+            for v in x.values():
+                walk(v)
+        elif isinstance(x, list):
+            for v in x:
+                walk(v)
+    walk(d["bodies"])
+    for a in d["adts"]:
+        if a["path"] == path:
+            for fd in a["variants"][0]["fields"]:
+                fd["name"] = mapping.get(fd["name"], fd["name"])
+    return mapping
+
+
 class Facts:
     def __init__(self, path):
         d = json.load(open(path))
+        self.renamed_fields = canonicalise_helper_fields(d)
         self.meta = {k: d[k] for k in ("crate", "nonce", "rustc", "test_harness", "debug_assertions", "missing_bodies") if k in d}
         self.adt_list = d["adts"]  # several derive-generated ADTs can share one path (serde's `__Field` per enum variant)
         self.adts = {}
